@@ -191,6 +191,30 @@ for _k, _v in _R3.items():
 CHECKS['C13']['note'] = CHECKS['C13']['note'].replace('The near-uniform float tolerance test is outside the claim: the stub returns an arbitrary boolean for it and nothing is asserted about the spacing in that branch;', 'The near-uniform tolerance is decided exactly except within |1 - d/median| in [0.031, 0.032] (float rounding; arbitrary outcome there);')
 CHECKS['C10']['note'] = CHECKS['C10']['note'].replace('Float chunk sizes and ', 'Symbolic float chunk sizes (two concrete ones are run) and ')
 
+# obligations added after the fourth round of seeded changes
+_R4 = {
+    'C01': ' The label is rendered from its current attributes (rendered, attribute re-assigned, rendered again).',
+    'C03': ' Two channels of one frame fed from one data set with different casts: every slot is the source column cast directly to its channel\'s dtype.',
+    'C04': ' Non-ASCII code points in text values are refused.',
+    'C05': ' Lists handed to multi-valued attributes are not aliased; 26 numeric look-alike strings stay text unless the documented rule makes them numbers.',
+    'C06': ' Lists of up to 12 integers with one arbitrary element (and concrete boundary windows): in range exact, outside SLONG refused.',
+    'C07': ' Reference lists are not aliased; a rejected first add_origin leaves no reference behind.',
+    'C08': ' Two channels on one data set: each declares the code of its own slot.',
+    'C09': ' The file header is encoded from its current attributes (completed after construction, also after a first encoding).',
+    'C11': ' Window bounds given as numpy integers; two channels on one data set.',
+    'C12': ' An incomplete logical file is refused also when the only add_frame / add_channel call was rejected; a frame listing another logical file\'s channel is refused; long lists with an out-of-range integer.',
+    'C13': ' INDEX-MIN / INDEX-MAX come from the rows, not from extremes declared on the index channel.',
+    'C14': ' Label and header re-rendering; soft enumerations judged by the mode in force at each call, whatever was accepted earlier in the process; aliasing of caller lists.',
+    'C15': ' The writer loop (monolithic two-record run) is registered here as well.',
+    'C16': ' The buffer step obligations are registered here as well (payloads crossing output chunks).',
+    'C17': ' A non-member value accepted outside the mode earlier is still refused inside it.',
+    'C18': ' A frame of one logical file listing a channel object of another is refused.',
+    'C19': ' FrameItem.setup_from_data never writes into the caller\'s index column (index type or not, cast or not, masks either way).',
+    'C20': ' A rejected first add_origin (explicit or default reference) leaves neither references nor header state behind; completeness after rejected calls.',
+}
+for _k, _v in _R4.items():
+    CHECKS[_k]['text'] = CHECKS[_k]['text'] + _v
+
 NOT_APPLICABLE = []   # every property is decided by this technique; parts out of its reach are listed per check (level_note, DESIGN 4)
 
 NOTES = ('All checks: ./vcheck <id> [--tier quick|thorough]. Exit 0 = no violation among everything decided '
